@@ -17,7 +17,7 @@ func init() {
 			"log-partition counter realigned at switch. NOT decided: equality of recovered contents with pre-crash contents, fsync semantics of the VFS, interleavings of two live log generations.",
 		Assumptions: commonAssumptions,
 		Technique:   "static analysis: must-precede / success-edge cuts on go/cfg, must-hold lockset dataflow, who-may-call tables over the type-resolved call index",
-		Rules:       "C01.R1 R2 R2b R3 R3b R4 R5 R6 R7 R8 R9 T1",
+		Rules:       "C01.R1 R2 R2b R3 R3b R4 R5 R6 R7 R8 R9 R10 T1",
 	}
 }
 
@@ -324,6 +324,61 @@ func c01(c *an.Ctx) {
 				}
 				ls := f.Locks(nil)
 				f.LockHeld(r, ls, reset, "recv.mu", an.LockW, "writeReq reset under exclusive WAL.mu")
+			}
+		}
+	}
+	// ---------------------------------------------------------------- R10
+	{
+		r := c.Rule("C01.R10", "K-PREDSHAPE", "engine:(*WAL).restoreLog — log files of a partition are ordered by numeric sequence (length, then name), newest first, and replayed oldest first")
+		if f := fn(r, E+":WAL.restoreLog"); f != nil {
+			srt := f.Find(call(r, "sort:Slice"))
+			r.AddSites(srt.Len())
+			if srt.Len() != 1 {
+				if !r.Failed() {
+					r.Fail(f.Name+": sort", c.P.Pos(f.Body.Pos()), "expected exactly one sort.Slice of the directory listing, found %d", srt.Len())
+				}
+			} else if lit, ok := srt.List[0].Node.(*ast.CallExpr).Args[1].(*ast.FuncLit); ok {
+				g := f.Lit(lit, "less")
+				g.AtomRename = an.Roles(
+					`^len\((.*)\[p0\]\.Name\(\)\)==len\((.*)\[p1\]\.Name\(\)\)$`, "LEN_EQ",
+					`^len\((.*)\[p1\]\.Name\(\)\)<len\((.*)\[p0\]\.Name\(\)\)$`, "LEN_I_GT_J",
+					`^len\((.*)\[p0\]\.Name\(\)\)<len\((.*)\[p1\]\.Name\(\)\)$`, "LEN_I_LT_J",
+					`^(.*)\[p1\]\.Name\(\)<(.*)\[p0\]\.Name\(\)$`, "NAME_I_GT_J",
+					`^(.*)\[p0\]\.Name\(\)<(.*)\[p1\]\.Name\(\)$`, "NAME_I_LT_J",
+					`^(.*)\[p0\]\.Name\(\)==(.*)\[p1\]\.Name\(\)$`, "NAME_EQ",
+				)
+				// newest first: less(i,j) ⇔ seq_i > seq_j, with seq compared as (length, text)
+				g.PredShape(r, 0, "(LEN_EQ & NAME_I_GT_J) | (!LEN_EQ & LEN_I_GT_J)", "file order is (length, name) descending = numeric sequence descending",
+					"!(LEN_EQ & LEN_I_GT_J) & !(LEN_EQ & LEN_I_LT_J) & !(LEN_I_GT_J & LEN_I_LT_J) & !(NAME_I_GT_J & NAME_I_LT_J) & !(NAME_EQ & NAME_I_GT_J) & !(NAME_EQ & NAME_I_LT_J)")
+			} else {
+				r.Fail(f.Name+": comparator", c.P.Pos(srt.List[0].Node.Pos()), "the comparator of the log-file sort is not a function literal; its shape cannot be decided")
+			}
+			// replay list is filled from the end of the sorted slice (oldest first)
+			fn := obj(r, E+":LogReplay.fileNames")
+			app := f.Find(an.MStore("replay.fileNames", fn, nil))
+			r.AddSites(app.Len())
+			if !r.Failed() {
+				if app.Len() != 1 {
+					r.Fail(f.Name+": replay list", c.P.Pos(f.Body.Pos()), "expected one append to replay.fileNames, found %d", app.Len())
+				} else {
+					// enclosing loop must count down: its condition is `n >= 0` and post is n--
+					var loop *ast.ForStmt
+					for p := f.Parent(app.List[0].Node); p != nil; p = f.Parent(p) {
+						if fs, ok := p.(*ast.ForStmt); ok {
+							loop = fs
+							break
+						}
+					}
+					okDown := false
+					if loop != nil {
+						if inc, ok := loop.Post.(*ast.IncDecStmt); ok && inc.Tok.String() == "--" {
+							okDown = true
+						}
+					}
+					if !okDown {
+						r.Fail(f.Name+": replay direction", c.P.Pos(app.List[0].Node.Pos()), "replay.fileNames is no longer filled by walking the newest-first slice backwards (oldest file must be replayed first)")
+					}
+				}
 			}
 		}
 	}
